@@ -26,6 +26,7 @@ Inductive op :=
   | OSetLastLen (l : option nat)
   | OSetTrig (k : option nat)
   | OSetRoots (r : list Z)
+  | OSetMaxNodes (n : option positive)
   | OCofactor (u : Z) (byname : bool) (values : list (nat * bool))
   | OQuantify (u : Z) (byname : bool) (qvars : list nat) (fa : bool)
   | OCompose (u : Z) (sub : list (nat * Z))
@@ -66,6 +67,7 @@ Definition run_op (w : world) (o : op) : MS value :=
   | OSetLastLen l => modify (fun s => s <| last_len := l |>) ;;; ret VU
   | OSetTrig k => modify (fun s => s <| trig := k |>) ;;; ret VU
   | OSetRoots r => modify (fun s => s <| roots := r |>) ;;; ret VU
+  | OSetMaxNodes n => modify (fun s => s <| max_nodes := n |>) ;;; ret VU
   | OCofactor u bn vals => r <- cofactor u bn vals ;; ret (VZ r)
   | OQuantify u bn q fa => r <- quantify u bn q fa ;; ret (VZ r)
   | OCompose u sub => r <- compose u sub ;; ret (VZ r)
@@ -107,6 +109,7 @@ Record dig := Dig {
   d_l2v : list (nat * nat);
   d_last_len : option nat;
   d_rctx : bool;
+  d_max_nodes : option positive;
 }.
 
 Definition tup (t : triple) : nat * Z * Z := (t_lvl t, t_lo t, t_hi t).
@@ -120,7 +123,8 @@ Definition digest (s : st) : dig :=
       (map_to_list (vars s))
       (map_to_list (lvl2var s))
       (last_len s)
-      (rctx s).
+      (rctx s)
+      (max_nodes s).
 
 Definition world_empty : world := ∅.
 Definition world_get (w : world) (m : nat) : st := default empty_st (w !! m).
